@@ -178,6 +178,13 @@ func runC14(w *World, tier string) (bool, interface{}) {
 	if spec == nil || w.Failed() {
 		return false, fmt.Sprintf("no race moment reached (kind %s)", wantKind)
 	}
+	return raceAndJudge(w, nd, spec, tier, n, t)
+}
+
+// raceAndJudge checkpoints the node, executes every serial order of (request,
+// one tick over spec.msgs messages) from the checkpoint, then concurrent
+// gate-level interleavings, and compares.
+func raceAndJudge(w *World, nd *HotNode, spec *raceSpec, tier string, n, t int) (bool, interface{}) {
 	// ---- checkpoint -----------------------------------------------------------
 	if p := nd.inc.Poller; p.Parked() != nil {
 		// the stalled poller sits at the start of a tick; stopping is clean
